@@ -18,6 +18,8 @@ from fractions import Fraction as F
 
 sys.path.insert(0, os.path.dirname(os.path.abspath(__file__)))
 from lib import Check, blit, qlit   # noqa: E402
+from lib import REPO   # noqa: E402
+import gen_coord   # noqa: E402  (tools/: translator tie, proved in coq/geneq/CoordGenEq.v)
 
 from geostructures.coordinates import Coordinate     # noqa: E402  (the implementation)
 
@@ -195,6 +197,7 @@ def gen_values(ck):
 def main():
     ck = Check('C08')
     ck.build_theories(['theories/Props/C08.vo', 'theories/Corr/CoordK.vo'])
+    rep = gen_coord.main(REPO, os.path.join(ck.rundir, 'CoordGen.v')); ck.gen('CoordGen.v', rep, 'CoordGenEq.v')   # regenerated from the source, proved equal to the model
     ck.props('Props/C08.v')
     rng = ck.rng
 
